@@ -13,7 +13,8 @@ Definition of_state (s : qst) : sx :=
 
 (* raw event log: (0) init, (1 id) preprocess, (2 id x to_total to_cont) evaluate_area, (3 (ids)) removed,
    (4) reset (dimension-wise), (5 x) evaluate (dimension-wise), (6) snapshot, (7 id x) side evaluation,
-   (8 id) error-estimate evaluation, (10) reset_result, (11) reinit_new_objects *)
+   (8 id) error-estimate evaluation, (10) reset_result, (11) reinit_new_objects,
+   (12) start of evaluate_final_combi on the live object (result and container value restart from zero) *)
 Fixpoint replay (es : list sx) (s : qst) : option (list sx) :=
   match es with
   | [] => Some []
@@ -34,12 +35,14 @@ Fixpoint replay (es : list sx) (s : qst) : option (list sx) :=
       | Lv [Zv 8; Zv id] => replay r (q_apply s (AEstimate id))
       | Lv [Zv 10] => replay r (q_apply s AResetTotal)
       | Lv [Zv 11] => replay r (q_apply s AReinit)
+      | Lv [Zv 12] => replay r (q_apply s AFinalBegin)
       | _ => None
       end
   end.
 
 (* driver steps: (0 ((id (x ...)) ...)) evaluate the new areas with these parts; (1 (removed) (added)) refine;
-   (2 (x ...)) dimension-wise evaluation; (3 id x) side evaluation; (4 id) error-estimate evaluation *)
+   (2 (x ...)) dimension-wise evaluation; (3 id x) side evaluation; (4 id) error-estimate evaluation;
+   (5 ((id (x ...)) ...)) evaluate_final_combi() on the live object with these parts of ALL areas *)
 Fixpoint lookup_parts (tbl : list (Z * list Qc)) (id : Z) : list Qc :=
   match tbl with [] => [] | (i, xs) :: r => if i =? id then xs else lookup_parts r id end.
 
@@ -58,6 +61,7 @@ Definition get_step (s : sx) : option (dstep Qc) :=
   | Lv [Zv 2; xs] => match get_LQc xs with Some x => Some (DEvaluateDW x) | None => None end
   | Lv [Zv 3; Zv id; x] => match get_Qc x with Some x' => Some (DSide id x') | None => None end
   | Lv [Zv 4; Zv id] => Some (DEstimate id)
+  | Lv [Zv 5; tbl] => match get_parts tbl with Some t => Some (DFinalCombi (lookup_parts t)) | None => None end
   | _ => None
   end.
 
